@@ -845,6 +845,14 @@ func rulePPostNonEmpty(c *engine.Context) *report.Rule {
 		}
 		transfer := func(b *ssa.BasicBlock, v bool) bool {
 			for _, ins := range b.Instrs {
+				if call, isCall := ins.(*ssa.Call); isCall {
+					if sc := call.Call.StaticCallee(); sc != nil {
+						if h, isH := emitHelpers(c)[sc]; isH && varOf(call.Call.Args[h.sink]) == sinkVar {
+							v = true
+						}
+					}
+					continue
+				}
 				st, ok := ins.(*ssa.Store)
 				if !ok {
 					continue
@@ -956,6 +964,14 @@ func rulePPostNonEmpty(c *engine.Context) *report.Rule {
 						for _, ins := range b.Instrs {
 							if ins == at {
 								break
+							}
+							if call, isCall := ins.(*ssa.Call); isCall {
+								if sc := call.Call.StaticCallee(); sc != nil {
+									if h, isH := emitHelpers(c)[sc]; isH && varOf(call.Call.Args[h.sink]) == sinkVar {
+										v2 = true
+									}
+								}
+								continue
 							}
 							if st, ok := ins.(*ssa.Store); ok && sinkResultVar(p, st.Addr) == sinkVar {
 								if cl, isCall := st.Val.(*ssa.Call); isCall {
